@@ -43,11 +43,14 @@ def runLines (h : String) : String :=
   match decChars h with
   | none => "bad-case\t-"
   | some cs =>
-    match parseScript cs with
-    | none => "syntax-error\t-"
-    | some ls =>
-      let text := List.intercalate ['\n'] (ls.map (printList false))
-      s!"lines {ls.length} {encChars text}\t-"
+    let show1 (r : Option (List (List Item))) : String :=
+      match r with
+      | none => "syntax-error"
+      | some ls => s!"lines {ls.length} {encChars (List.intercalate ['\n'] (ls.map (printList false)))}"
+    let a := show1 (parseScript cs)
+    -- no budget ran out: twice the nesting depth and twice the line fuel give the same answer
+    let b := show1 (parseScriptWith 2 cs)
+    s!"{a}\t{if a == b then "ok" else "FAIL:a-fuel-budget-of-the-model-parser-ran-out"}"
 
 def runLine (line : String) : String :=
   if line.startsWith "R " || line.startsWith "G " then "total\t-" else
